@@ -94,6 +94,8 @@ func mapDiff(a, b map[string]string) string {
 	for _, k := range keys {
 		x, okx := a[k]
 		y, oky := b[k]
+		// process-substitution FIFO paths are random
+		x, y = fifoNameRE.ReplaceAllString(x, "sh-interp-FIFO"), fifoNameRE.ReplaceAllString(y, "sh-interp-FIFO")
 		switch {
 		case !okx:
 			fmt.Fprintf(&sb, "%s: only in observed: %s; ", k, y)
